@@ -2,77 +2,64 @@ import EoNVerif.Model.Gillespie
 import EoNVerif.Model.GillespieLaw
 import EoNVerif.Spec.Chain
 import EoNVerif.Proofs.ListDict
+import EoNVerif.Proofs.Gillespie
 /-!
 C01 / C02 — target statements for the model of `Gillespie_SIR` / `Gillespie_SIS`
 (`P.sis` selects the variant; every theorem is for both).
 -/
 namespace Gillespie
 
-/-- well-formed undirected simple contact network with non-negative symmetric weights -/
-structure WF (P : GParams) : Prop where
-  nodup : P.nodes.Nodup
-  nbr_nodup : ∀ u ∈ P.nodes, (P.nbrs u).Nodup
-  nbr_mem : ∀ u ∈ P.nodes, ∀ v ∈ P.nbrs u, v ∈ P.nodes
-  nbr_out : ∀ u, u ∉ P.nodes → P.nbrs u = []
-  symm : ∀ u v, v ∈ P.nbrs u → u ∈ P.nbrs v
-  noloop : ∀ u, u ∉ P.nbrs u
-  ew_nonneg : ∀ f, P.ew = some f → ∀ u v, 0 ≤ f u v
-  ew_symm : ∀ f, P.ew = some f → ∀ u v, f u v = f v u
-  nw_nonneg : ∀ f, P.nw = some f → ∀ u, 0 ≤ f u
-  tau_nonneg : 0 ≤ P.tau
-  gamma_nonneg : 0 ≤ P.gamma
-
-/-- The bookkeeping invariant: the two candidate structures equal the sets implied by the statuses. -/
-structure Inv (P : GParams) (s : GState) : Prop where
-  infInv : LD.Inv s.inf
-  linkInv : LD.Inv s.links
-  infW : s.inf.weighted = P.nw.isSome
-  linkW : s.links.weighted = P.ew.isSome
-  inf_items : ∀ u, u ∈ s.inf.items ↔ (u ∈ P.nodes ∧ s.status u = St.I)
-  link_items : ∀ u v, (u, v) ∈ s.links.items ↔ (u ∈ P.nodes ∧ s.status u = St.I ∧ v ∈ P.nbrs u ∧ s.status v = St.S)
-  inf_w : ∀ f, P.nw = some f → ∀ u ∈ s.inf.items, s.inf.getW u = f u
-  link_w : ∀ f, P.ew = some f → ∀ p ∈ s.links.items, s.links.getW p = f p.1 p.2
-  sis_noR : P.sis = true → ∀ u, s.status u ≠ St.R
+/- `Gillespie.WF` (well-formed undirected simple contact network with non-negative symmetric weights) and
+`Gillespie.Inv` (the bookkeeping invariant) are defined, unchanged, in `EoNVerif/Proofs/Gillespie.lean`. -/
 
 /-- the initial state is built without KeyError and satisfies the invariant -/
 theorem init_inv (P : GParams) (h : WF P) (infs recs : List Node) (tmin : Rat)
     (hi : infs.Nodup) (him : ∀ u ∈ infs, u ∈ P.nodes) (hr : ∀ u ∈ recs, u ∈ P.nodes)
     (hd : ∀ u ∈ infs, u ∉ recs) (hsis : P.sis = true → recs = []) :
-    ∃ s, init P infs recs tmin = some s ∧ Inv P s ∧ s.status = initStatus infs recs := sorry
+    ∃ s, init P infs recs tmin = some s ∧ Inv P s ∧ s.status = initStatus infs recs :=
+  init_inv' P h infs recs tmin hi him hd hsis
 
 /-- recovery of an enabled node: no KeyError, invariant preserved, status changes as in the chain -/
 theorem applyRec_inv (P : GParams) (h : WF P) (s : GState) (hs : Inv P s) (u : Node) (t : Rat)
     (hu : u ∈ s.inf.items) :
-    ∃ s', applyRec P s u t = some s' ∧ Inv P s' ∧ s'.status = Chain.apply P s.status (.recover u) := sorry
+    ∃ s', applyRec P s u t = some s' ∧ Inv P s' ∧ s'.status = Chain.apply P s.status (.recover u) :=
+  applyRec_inv' P h s hs u t hu
 
 /-- transmission along an enabled I–S link -/
 theorem applyTrans_inv (P : GParams) (h : WF P) (s : GState) (hs : Inv P s) (u v : Node) (t : Rat)
     (huv : (u, v) ∈ s.links.items) :
-    ∃ s', applyTrans P s u v t = some s' ∧ Inv P s' ∧ s'.status = Chain.apply P s.status (.transmit u v) := sorry
+    ∃ s', applyTrans P s u v t = some s' ∧ Inv P s' ∧ s'.status = Chain.apply P s.status (.transmit u v) :=
+  applyTrans_inv' P h s hs u v t huv
 
 /-- the selection step only ever returns enabled events, for every tape -/
 theorem pick_enabled (P : GParams) (s : GState) (fuel : Nat) (ts ts' : TapeSt) (e : GEvent)
     (hp : pick P s fuel ts = .ok (e, ts')) :
     match e with
     | .recover u => u ∈ s.inf.items
-    | .transmit u v => (u, v) ∈ s.links.items := sorry
+    | .transmit u v => (u, v) ∈ s.links.items := by
+  have := pick_enabled' P s fuel ts ts' e hp
+  cases e <;> exact this
 
 /-- **invariant for every tape prefix**: whatever the draws, every state the loop reaches satisfies `Inv`
 (in particular the model's KeyError state is unreachable from an `Inv` state) -/
 theorem loop_inv (P : GParams) (h : WF P) (tmax : ERat) (cfuel fuel : Nat) (s s' : GState) (t : ERat)
-    (ts ts' : TapeSt) (hs : Inv P s) (hl : loop P tmax cfuel fuel s t ts = .ok (s', ts')) : Inv P s' := sorry
+    (ts ts' : TapeSt) (hs : Inv P s) (hl : loop P tmax cfuel fuel s t ts = .ok (s', ts')) : Inv P s' :=
+  loop_inv' P h tmax cfuel fuel s s' t ts ts' hs hl
 
 theorem loop_no_keyerror (P : GParams) (h : WF P) (tmax : ERat) (cfuel fuel : Nat) (s : GState) (t : ERat)
-    (ts : TapeSt) (hs : Inv P s) : loop P tmax cfuel fuel s t ts ≠ .error "KeyError" := sorry
+    (ts : TapeSt) (hs : Inv P s) : loop P tmax cfuel fuel s t ts ≠ .error "KeyError" :=
+  loop_no_keyerror' P h tmax cfuel fuel s t ts hs
 
 theorem run_inv (P : GParams) (h : WF P) (infs recs : List Node) (tmin : Rat) (tmax : ERat) (fuel cfuel : Nat)
     (hi : infs.Nodup) (him : ∀ u ∈ infs, u ∈ P.nodes) (hr : ∀ u ∈ recs, u ∈ P.nodes)
     (hd : ∀ u ∈ infs, u ∉ recs) (hsis : P.sis = true → recs = []) (ts ts' : TapeSt) (s' : GState)
-    (hrun : run P infs recs tmin tmax fuel cfuel ts = .ok (s', ts')) : Inv P s' := sorry
+    (hrun : run P infs recs tmin tmax fuel cfuel ts = .ok (s', ts')) : Inv P s' :=
+  run_inv' P h infs recs tmin tmax fuel cfuel hi him hd hsis ts ts' s' hrun
 
 /-- **clock**: the rate handed to `expovariate` is the total rate of the chain in the current status -/
 theorem clock_eq (P : GParams) (h : WF P) (s : GState) (hs : Inv P s) :
-    totalRate P s = Chain.totalRate P s.status := sorry
+    totalRate P s = Chain.totalRate P s.status :=
+  clock_eq' P h s hs
 
 /-- **jump law (recovery)**: an infectious node `u` is the next to recover with probability
 `γ w_u / total · (1-ρ^k)` where `ρ^k` is the probability that the rejection sampler is still running after `k`
@@ -81,26 +68,30 @@ theorem jump_law_rec (P : GParams) (h : WF P) (s : GState) (hs : Inv P s) (hpos 
     (u : Node) (hu : u ∈ s.inf.items) (k : Nat) (hk : 0 < k) :
     Dist.mass (pickDist P s k) (fun o => o == some (GEvent.recover u)) =
       Chain.nodeRate P u / Chain.totalRate P s.status *
-        (if s.inf.weighted then 1 - s.inf.rejProb ^ k else 1) := sorry
+        (if s.inf.weighted then 1 - s.inf.rejProb ^ k else 1) :=
+  jump_law_rec' P h s hs hpos u hu k hk
 
 /-- **jump law (transmission)** -/
 theorem jump_law_trans (P : GParams) (h : WF P) (s : GState) (hs : Inv P s) (hpos : 0 < totalRate P s)
     (u v : Node) (huv : (u, v) ∈ s.links.items) (k : Nat) (hk : 0 < k) :
     Dist.mass (pickDist P s k) (fun o => o == some (GEvent.transmit u v)) =
       Chain.edgeRate P u v / Chain.totalRate P s.status *
-        (if s.links.weighted then 1 - s.links.rejProb ^ k else 1) := sorry
+        (if s.links.weighted then 1 - s.links.rejProb ^ k else 1) :=
+  jump_law_trans' P h s hs hpos u v huv k hk
 
 /-- nothing but enabled events has positive probability -/
 theorem jump_law_support (P : GParams) (h : WF P) (s : GState) (hs : Inv P s) (k : Nat) (e : GEvent)
     (he : match e with
           | .recover u => u ∉ s.inf.items
           | .transmit u v => (u, v) ∉ s.links.items) :
-    Dist.mass (pickDist P s k) (fun o => o == some e) = 0 := sorry
+    Dist.mass (pickDist P s k) (fun o => o == some e) = 0 := by
+  cases e <;> exact jump_law_support' P s k _ he
 
 /-- the enabled sets of the chain are exactly the candidate lists -/
 theorem enabled_iff (P : GParams) (h : WF P) (s : GState) (hs : Inv P s) :
     (∀ u, u ∈ Chain.enabledRec P s.status ↔ u ∈ s.inf.items) ∧
-    (∀ p, p ∈ Chain.enabledTrans P s.status ↔ p ∈ s.links.items) := sorry
+    (∀ p, p ∈ Chain.enabledTrans P s.status ↔ p ∈ s.links.items) :=
+  enabled_iff' P s hs
 
 end Gillespie
 
@@ -111,4 +102,5 @@ def exNbrs (u : Node) : List Node :=
 def exP : GParams :=
   { nodes := [0, 1, 2, 3], nbrs := exNbrs, tau := 2, gamma := 1,
     ew := some (fun u v => if u + v = 3 then 1/2 else 2), nw := some (fun u => (u : Rat) + 1), sis := false }
-#eval (Gillespie.init exP [1, 3] [0] 0).map (fun s => (s.inf.items, s.links.items, s.links.total))
+example : (Gillespie.init exP [1, 3] [0] 0).map (fun s => (s.inf.items, s.links.items, s.links.total))
+    = some ([1, 3], [(1, 2), (3, 2)], 5 / 2) := by decide +kernel
